@@ -35,6 +35,10 @@ def _pairs():
         ("neighbors/nearest", F.extrap_neighbors, F.interp_nearest, {}),
         ("linear_forward/linear", F.extrap_linear_forward, F.interp_linear, {}),
         ("linear_backward/linear", F.extrap_linear_backward, F.interp_linear, {}),
+        # the optional `adjust` keyword of the linear extrapolations transforms the anchoring neighbour first; the
+        # extrapolated line still passes through the sample, so the round trip holds with it as well
+        ("linear_forward(adjust=halve)/linear", F.extrap_linear_forward, F.interp_linear, {"adjust": lambda d: d * 0.5}, {}),
+        ("linear_backward(adjust=shift)/linear", F.extrap_linear_backward, F.interp_linear, {"adjust": lambda d: d + 1.5}, {}),
         ("expdecay/expdecay", F.extrap_expdecay, F.interp_expdecay, {"time_constant": tau}),
         ("expratedecay/expratedecay", F.extrap_expratedecay, F.interp_expratedecay, {"rate_constant": 1 / tau}),
     ]
@@ -54,7 +58,9 @@ def roundtrip(chk: Check, g: graph.Graph, consts, rng, budget, tick):
     pairs = _pairs()
     done = 0
     for k, op in cases[:budget]:
-        name, ex, ip, kw = pairs[done % len(pairs)]
+        pair = pairs[done % len(pairs)]
+        name, ex, ip, kw = pair[:4]
+        ikw = pair[4] if len(pair) > 4 else kw          # keyword arguments of the interpolation, when they differ
         impl = make()
         for o, _ in paths[k]:
             impl.apply(o)
@@ -65,7 +71,7 @@ def roundtrip(chk: Check, g: graph.Graph, consts, rng, budget, tick):
         times = impl._times(op)
         tol = (op["tol2"] / 2) * tick
         rec.insert(v, times, ex, tolerance=tol, offset=op["off"], inplace=op["inpl"], extrap_kwargs=kw)
-        got = rec.select(times, ip, tolerance=tol, offset=op["off"], interp_kwargs=kw)
+        got = rec.select(times, ip, tolerance=tol, offset=op["off"], interp_kwargs=ikw)
         done += 1
         chk.evaluations += 1
         chk.nontrivial.add(("roundtrip", k, graph.canon(op), name))
